@@ -30,6 +30,10 @@ func genC10(t *rapid.T) *Case {
 		r := genBystander(t, fmt.Sprintf("late%d", i))
 		r.Role = "late"
 		r.AfterEvent = 1
+		if rapid.IntRange(0, 3).Draw(t, fmt.Sprintf("late%d.odd", i)) == 0 {
+			// whatever is wrong with the request, a draining server refuses it with Unavailable
+			r.Method = rapid.SampledFrom([]string{"/verif.Svc/Nope", "/nope.Svc/Unary", "nonsense", "<empty>"}).Draw(t, fmt.Sprintf("late%d.method", i))
+		}
 		c.RPCs = append(c.RPCs, r)
 	}
 	if c.Cfg.Dir == "rev" && rapid.IntRange(0, 2).Draw(t, "then_stop") == 0 {
